@@ -2,6 +2,7 @@ package mc
 
 import (
 	"fmt"
+	"github.com/google/uuid"
 	"reflect"
 	"strings"
 
@@ -19,8 +20,10 @@ var builderAlphabet = []bCall{
 	"block", "block:noname", "block:nodescr",
 	"seq", "seq:nil", "seq:noname", "seq:nodescr", "seq:withaction",
 	"action", "action:nil", "action:noname", "action:nodescr", "action:noplugin",
-	"up", "plan", "reset", "reset:blank",
+	"up", "plan", "reset", "reset:group", "reset:blank",
 }
+
+var builderGroupID = uuid.MustParse("01890000-0000-7000-8000-00000000b111")
 
 func newAction(n int) *workflow.Action {
 	return &workflow.Action{Name: fmt.Sprintf("a%d", n), Descr: "d", Plugin: "p"}
@@ -83,6 +86,8 @@ func applyReal(b *builder.BuildPlan, c bCall, n int) (plan *workflow.Plan, perr 
 		return p, err, true
 	case "reset":
 		b.Reset(fmt.Sprintf("plan%d", n), "descr")
+	case "reset:group":
+		b.Reset(fmt.Sprintf("plan%d", n), "descr", builder.WithGroupID(builderGroupID))
 	case "reset:blank":
 		b.Reset(" ", "descr")
 	default:
@@ -109,10 +114,13 @@ func newRef(name string) *refBuilder {
 
 // apply returns true when the call is a misuse in the current state.
 func (r *refBuilder) apply(c bCall, n int) (misuse bool) {
-	if c == "reset" {
+	if c == "reset" || c == "reset:group" {
 		ever := r.everEmitted || r.emitted
 		*r = *newRef(fmt.Sprintf("plan%d", n))
 		r.everEmitted = ever
+		if c == "reset:group" {
+			r.plan.GroupID = builderGroupID
+		}
 		return false
 	}
 	if c == "reset:blank" {
@@ -286,7 +294,7 @@ func checkBuilderSeq(seq []bCall) (rule, sig, msg string) {
 		mis := ref.apply(c, i)
 		plan, perr, isPlan := applyReal(b, c, i)
 		where := fmt.Sprintf("after call %d (%s) of %v", i, c, seq)
-		if c == "reset" {
+		if c == "reset" || c == "reset:group" {
 			firstErr = nil
 		}
 		switch {
@@ -519,7 +527,7 @@ func init() {
 	register(&PropDef{
 		ID:    "C20",
 		Level: "exploration",
-		Rule: "breadth-first enumeration of ALL call sequences over 27 call variants (AddChecks x 10 incl. nil / nil action / unknown kind (the declared zero value and a value outside the constants) / pre-filled, AddBlock x 3, AddSequence x 5, AddAction x 5, Up, Plan, Reset ok/blank) up to depth 6 (8): correct prefixes are merged by the abstract state of a reference builder " +
+		Rule: "breadth-first enumeration of ALL call sequences over 28 call variants (AddChecks x 10 incl. nil / nil action / unknown kind (the declared zero value and a value outside the constants) / pre-filled, AddBlock x 3, AddSequence x 5, AddAction x 5, Up, Plan, Reset ok / with an option / blank) up to depth 6 (8): correct prefixes are merged by the abstract state of a reference builder " +
 			"(cursor chain with filled check slots and child counts capped at 2, emitted flag), after the first misuse every extension by 2 (3) further calls is enumerated; each sequence runs on a fresh real builder and on the reference interpreter, compared after every call " +
 			"(Err(), Plan() result, deep equality with the directly constructed plan, panics); distinct_nontrivial = distinct (abstract reference state reached, last call) pairs among the evaluated sequences",
 		Assumptions: []string{"stickiness is checked for 2 (3) calls after the first misuse, not for arbitrarily long suffixes", "child counts above 2 are merged"},
